@@ -39,6 +39,13 @@ func (h *Hist) RandString(n int) string {
 			b.WriteByte([]byte{'\'', '\\', '\n', 0, 0xff, '"', 0xc3}[h.R.Intn(7)])
 			continue
 		}
+		if i+1 < n && h.R.Chance(1, 25) {
+			// a quote or backslash the only way SQL text can carry it: as the
+			// two characters backslash + that character (mkdb keeps both)
+			b.WriteString([]string{"\\'", "\\\"", "\\\\"}[h.R.Intn(3)])
+			i++
+			continue
+		}
 		b.WriteByte(alphabet[h.R.Intn(len(alphabet))])
 	}
 	return b.String()
